@@ -48,6 +48,7 @@ macro_rules! systems {
             "mpmc.arrL0" => sys_mpmc::Sys<sys_mpmc::ArrL<0>>,
             "mpmc.arrL1" => sys_mpmc::Sys<sys_mpmc::ArrL<1>>,
             "mpmc.arrL2" => sys_mpmc::Sys<sys_mpmc::ArrL<2>>,
+            "mpmc.arrL3" => sys_mpmc::Sys<sys_mpmc::ArrL<3>>,
             "mpmc.arrS0" => sys_mpmc::Sys<sys_mpmc::ArrS<0>>,
             "mpmc.arrS1" => sys_mpmc::Sys<sys_mpmc::ArrS<1>>,
             "mpmc.arrS2" => sys_mpmc::Sys<sys_mpmc::ArrS<2>>,
@@ -209,6 +210,30 @@ fn main() {
                 "wall_s": t0.elapsed().as_secs_f64(),
             });
             std::fs::write(&out, serde_json::to_string_pretty(&doc).unwrap()).expect("write result");
+        }
+        "explore" => {
+            // ad-hoc: fiverif explore --system sem.local --params fair=1,k=4,... [--prop C06] [--finish]
+            let system: &'static str = Box::leak(arg(&args, "--system").expect("--system").into_boxed_str());
+            let mut params: Vec<(&'static str, i64)> = vec![];
+            for kv in arg(&args, "--params").unwrap_or_default().split(',').filter(|x| !x.is_empty()) {
+                let (k, v) = kv.split_once('=').expect("k=v");
+                params.push((Box::leak(k.to_string().into_boxed_str()), v.parse().expect("integer")));
+            }
+            let cfg = Cfg { system, params };
+            let opts = Opts {
+                scope: arg(&args, "--prop"),
+                threads: arg(&args, "--threads").and_then(|s| s.parse().ok()).unwrap_or(16),
+                max_states: 50_000_000,
+                wall_cap_s: arg(&args, "--wall").and_then(|s| s.parse().ok()).unwrap_or(3600.0),
+                finish: args.iter().any(|a| a == "--finish"),
+                max_found: 8,
+                symmetry: true,
+            };
+            let r = run_explore(&cfg, &opts);
+            println!("{} states={} transitions={} depth={} fixpoint={} cap={:?} violations={} {:.1}s", cfg.label(), r.states, r.transitions, r.depth, r.fixpoint, r.cap_hit, r.found.len(), r.wall_s);
+            for f in &r.found {
+                println!("  {} {} x{}: {} after {:?}", f.prop, f.clause, f.count, f.msg, f.history);
+            }
         }
         "replay" => {
             let file = arg(&args, "--file").expect("--file");
